@@ -217,6 +217,10 @@ def rejecting_edges(g):
                     and not all(isinstance(a, tuple) and a and a[0] in ('variant', 'never') for a in alts(gd.cond[2])):
                 # a dispatch on the variant of an INPUT-derived value (`match element.signature { Unsigned => stop }`) is a reason of its
                 # own; only dispatches on values the code built itself (Continue/Break, a private "which path" enum) are plumbing
+                tm = gd.ctx.body['blocks'][gd.bb]['term']
+                if gd.label == 'otherwise' and tm.get('t') == 'switch' and isinstance(tm.get('otherwise'), int) \
+                        and gd.ctx.body['blocks'][tm['otherwise']]['term']['t'] == 'unreachable':
+                    continue        # the compiler's arm for "none of the variants": cannot be taken
                 out.append(gd)
                 continue
             if gd.cond[0] in ('ok', 'err', 'is', 'isnot', 'isnot_any', 'discr_eq', 'const', 'int_not_in'):
